@@ -12,13 +12,13 @@ CLAIMED = {
     "C48": dict(engine="crashsim", cat="fault_enumeration", ref="5.3",
         technique="deterministic simulation with crash injection: the real CLI runs in-process over syscall-level fault points; every recorded file-system operation (and 3 offsets inside every write) is enumerated as a kill point with crash-freeze, then the target file is compared with its old and new content",
         text="Per generated scenario the crash points are enumerated completely (every file-system system call of the command, plus inside each write), so for the sampled inputs the statement is decided exhaustively; inputs (sizes 28 B - 2 MiB, fmt and single-board render, output present/absent/longer/shorter) are sampled by seed.",
-        note="Trusted: the std-library overlay that places the fault points at syscall wrappers; crash-freeze as a model of SIGKILL (cross-checked with strace-injected SIGKILL in the thorough tier when available); power-loss durability is out of scope (property says 'killed')."),
+        note="Trusted: the std-library overlay that places the fault points at syscall wrappers; the two simulated file systems (sources/outputs and TMPDIR; renames between them fail with EXDEV in half of the scenarios); crash-freeze as a model of SIGKILL (cross-checked with strace-injected SIGKILL in the thorough tier when available); power-loss durability is out of scope (property says 'killed')."),
     "C46": dict(engine="bundlesim", cat="exploration", ref="5.2",
         technique="deterministic simulation in a synctest bubble: real imgbundler over a simulated HTTP transport and syscall-level file-system fault points; the seeded scheduler decides worker start/completion order, every I/O outcome, stalls, timeouts and caller cancellation; output and error are compared with a sequential reference bundler",
         text="Seeded exploration of worker interleavings x failure subsets x inputs with exact replay. Small image counts (<=3) are visited often enough to cover all completion orders and failure subsets; larger ones (up to 40, beyond the 16-worker semaphore) are sampled. Sampling, not proof.",
         note="Trusted: the reference bundler (eligibility = not data:, http(s) for remote), testing/synctest's fake clock, the std overlay. Worker goroutines run real code; only their park points are owned by the simulator, certified by the per-run determinism re-execution."),
     "C44": dict(engine="watchsim", cat="exploration", ref="5.1",
-        technique="deterministic simulation: the real `d2 --watch` (watcher, compile loop, HTTP and WebSocket server) runs in a synctest bubble against simulated editor, inotify, network and browsers; a seeded scheduler owns 21 park points in watch.go, every actor step and the clock; per-client result order and final delivery are checked over the recorded history",
+        technique="deterministic simulation: the real `d2 --watch` (watcher, compile loop, HTTP and WebSocket server) runs in a synctest bubble against simulated editor, inotify, network and browsers; a seeded scheduler owns 22 park points in watch.go, every actor step (saves in three styles of up to three files with imports added and dropped, page navigation between boards, clients connecting/stalling/leaving) and the clock; per-client result order (a subsequence of the stored results) and final delivery are checked over the recorded history, at the end and at checkpoints after saves",
         text="Seeded exploration of interleavings of file changes, compile-loop steps, client connections/disconnections and client write loops with exact replay; bounded liveness (latest content compiled and delivered to every connected client within 60 simulated seconds once the input stops changing and faults stop). Sampling, not proof; thousands of distinct schedules per quick run.",
         note="Trusted: testing/synctest's fake clock and quiescence detection, the std overlay, the simulated inotify semantics (DESIGN.md §3.5), the version extraction from delivered SVGs. Goroutines run real code between park points; the per-run determinism re-execution certifies that what the simulator does not own does not matter."),
     "C45": dict(engine="watchsim", cat="exploration", ref="5.1",
@@ -26,14 +26,19 @@ CLAIMED = {
         text="Seeded exploration of connection/registration/write-loop/heartbeat/shutdown interleavings with exact replay. Checks that close() returns only when every started handler has exited, that nothing is admitted after close began, that shutdown completes without xmain's forced exit, no panic and no leaked d2cli goroutine. Sampling, not proof.",
         note="Trusted: as C44. The order of ws.admitted/close.begin trace events is the lock order because both are emitted under the client mutex."),
     "C08": dict(engine="pipesim", cat="exploration", ref="5.5",
-        technique="deterministic simulation of caller tasks: several compilations of the same and of other inputs run as tasks whose stages a seeded scheduler interleaves in one process, under a runtime seam that makes every map iteration order and select choice a function of the seed; results are compared across executions, seeds, interleavings and against a separate reference process",
-        text="Seeded exploration over the repository's script corpus and generated programs: each compiled repeatedly, interleaved with other compilations, under adversarially varied map iteration orders, and in a second process. Decides dependence on order, history and process identity; exact replay. Sampling of inputs; no claim about instruction-level data races (there is no shared mutable state in the compiler packages to race on).",
-        note="Trusted: the std-library overlay (runtime/rand.go, select.go, alg.go) that owns map and select randomness; d2graph.SerializeGraph as the canonical form of a compiled graph."),
+        technique="deterministic simulation of caller tasks: several compilations of the same and of other inputs run as tasks that a seeded scheduler interleaves in one process, at stage boundaries and at statement level (scheduling points written into the pipeline packages through a source overlay; a task never stops while it holds a lock), with schedules directed at store sites that write state shared between executions (found by profiling), under a runtime seam that makes every map iteration order and select choice a function of the seed; results are compared across executions, seeds, interleavings and against a separate reference process",
+        text="Seeded exploration over the repository's script corpus and generated programs: each compiled repeatedly, interleaved with other compilations, under adversarially varied map iteration orders, and in a second process. Decides dependence on order, history, process identity and on interleavings of two compilations down to the statement (a task can lose the CPU between any two statements of d2's own packages; code of dependencies is atomic); exact replay. Sampling of inputs and schedules, not proof.",
+        note="Trusted: the std-library overlay (runtime/rand.go, select.go, alg.go, sync/mutex.go) that owns map and select randomness and tells which goroutine holds a lock; cmd/yieldgen's source overlay (text edits at parser positions; if the rewritten tree does not build the engine falls back to stage-level interleaving and says so); d2graph.SerializeGraph as the canonical form of a compiled graph."),
     "C25": dict(engine="pipesim", cat="exploration", ref="5.6",
         technique="as C08, through layout (dagre, ELK) and SVG rendering with options drawn from the seed; SVG bytes compared across executions, interleavings, seeds and processes",
-        text="Seeded exploration: byte-identical SVG for the same input and options when rendered repeatedly in one process, interleaved with other diagrams and font registrations at stage granularity, under varied map orders, and in a separate process. Sampling, not proof; instruction-level races on the font registry are outside what a serialising simulator can see.",
+        text="Seeded exploration: byte-identical SVG for the same input and options when rendered repeatedly in one process, interleaved with other diagrams and font registrations at stage boundaries and at statement level (as C08: directed at store sites that write state shared between renders), under varied map orders, and in a separate process. Sampling, not proof; code of dependencies (goja, font and markdown libraries) runs atomically.",
         note="Trusted: as C08. Scripts are bounded in size (2.5 KB quick, 20 KB thorough) to bound layout time."),
 }
+
+CLAIMED["C07"] = dict(engine="streamsim", cat="exploration", ref="5.8",
+    technique="deterministic simulation of the import file system: the real compiler runs over a seeded fs.FS whose file set, import graph (cycles, nesting, missing files, directories), delivery (chunking, short and empty reads) and failures (open error, read error after k bytes, directory, content changing between opens) come from the tape; checked against a reference model of the import graph and against one-shot delivery",
+    text="Import slice of C07 only. Decides, for sampled file sets: the compilation terminates within a budget counted in file-system operations whatever the import graph (cycles of every length), returns a diagram or a non-empty list of errors that all carry a source position, reports (never silently compiles) a reachable import cycle and reports none where there is none, never swallows a failing open or read, and gives the same result however the files are cut into reads. Crashes of the compiler proper on a program (independent of delivery) are the input-space half of C07: sampled, counted in the evidence, not reported. Sampling, not proof.",
+    note="Trusted: the reference model of the import graph (depth-first search; the real parser tells it which files have syntax errors and are therefore never compiled); the fault reader shared with C01. CPU time is not observed: the 'time bound' is a bound on opens (4000) and reads (8*size+2000 per file).")
 
 PENDING = {
 }
@@ -45,7 +50,6 @@ NA = {
  "C04": "compares two pure compilations of two texts; " + NA_COMMON,
  "C05": "string quoting round trip; " + NA_COMMON,
  "C06": "ID syntax is a function of the compiled graph; " + NA_COMMON,
- "C07": "totality over the input space is input search and the time bound is CPU time, which a simulated clock cannot observe (import I/O faults are exercised, unclaimed, by the C01 engine)",
  "C09": "compile semantics against a reference interpreter; " + NA_COMMON,
  "C10": "compile semantics; " + NA_COMMON,
  "C11": "compile semantics; " + NA_COMMON,
@@ -70,7 +74,7 @@ NA = {
  "C31": "export/render invariant; " + NA_COMMON,
  "C32": "export/render invariant; " + NA_COMMON,
  "C33": "keyframe arithmetic; the 'time' is CSS animation time in a browser, not a clock Go code reads",
- "C34": "the set of paths written/removed is a deterministic function of board names and output path; no crash, fault or schedule in the statement",
+ "C34": "the set of paths written/removed is a deterministic function of board names and output path; no crash, fault or schedule in the statement (noted while deciding applicability, not claimed: on the pinned tree a board named \"../../x\" or \"..\" is written outside the output directory, see DESIGN.md §6)",
  "C35": "link resolution and relinking; " + NA_COMMON,
  "C36": "d2oracle is a synchronous API (graph, edit) → (graph, text); an edit history is an input sequence without concurrency, clock, I/O or faults",
  "C37": "d2oracle; see C36",
